@@ -62,7 +62,11 @@ TxStep(acc, en, t, i) ==
        ELSE [acc EXCEPT !.d = IF ShouldAcceptNotice(gg, en, t) /\ t.ret # "fee" THEN @ \cup {<<"rejected", t.id>>} ELSE @]
      ELSE IF t.typ = "REQ" THEN
        IF ok THEN
-         [g |-> IF t.gid = "" THEN AcceptReq(gg, en, t, bf) ELSE AcceptGroupReq(gg, en, t, bf),
+         \* (a declared group child whose destination is on another hub is handled as a one-to-one transaction by this code
+         \* base: the machine follows it; BlockStep reports C05_GroupSpansHubs when the stored group does not list the child)
+         \* (... and it registers no timeout for it either: the executor leaves grouped requests to the transaction manager)
+         [g |-> IF t.gid = "" THEN AcceptReq(gg, en, t, bf)
+                ELSE IF XH(t) THEN AcceptReq(gg, en, [t EXCEPT !.T = 0], bf) ELSE AcceptGroupReq(gg, en, t, bf),
           v |-> acc.v \cup proofViol
                       \cup (IF t.srcLocal => Avail(en, t.src) THEN {} ELSE {<<"C16_SourceAvailable", t.id>>})
                       \cup (IF IsBatchDst(en, t) \/ t.idx = Get(gg.acc, <<t.src, t.dst>>, 0) + 1 THEN {} ELSE {<<"C02_InOrder", t.id>>})
@@ -186,6 +190,11 @@ BlockStep(e) ==
                           /\ (CtrViol(g2, e.counters, en.unordered) \cup StatusViol(r.g, g2, e.h, e.status)) # {}
                       THEN {<<"C17_NoForeignDelete", {[c |-> e.txs[i].c, m |-> e.txs[i].m] : i \in 1..Len(e.txs)}>>} ELSE {})
                 \cup DelivViol(en, e.txs, e.counter, r.nt) \cup GroupViol(g2, e.groups) \cup ChainFreezeViol(e)
+                \* C05: every accepted child of a declared one-to-many transaction belongs to the stored group
+                \cup {<<"C05_GroupSpansHubs", [gid |-> e.txs[i].gid, child |-> e.txs[i].id]>> :
+                        i \in {j \in 1..Len(e.txs) : e.txs[j].k = "ibtp" /\ e.txs[j].typ = "REQ" /\ e.txs[j].status = "SUCCESS" /\ e.txs[j].gid # ""
+                                                      /\ XH(e.txs[j]) /\ j \notin r.nt
+                                                      /\ ~\E gr \in ToSet(e.groups) : \E k \in ToSet(gr.kids) : k.id = e.txs[j].id}}
                 \cup (LET ngov == Cardinality({i \in 1..Len(e.txs) : e.txs[i].k \in {"gov", "vote", "withdraw", "invoke"}}) IN
                       LifecycleViol("service", ServiceEdges, env.svc, SvcMap(e.svc), ngov)
                       \cup LifecycleViol("appchain", AppchainEdges, env.chain, ChainMap(e.chains, e.relay), ngov)
